@@ -13,8 +13,8 @@ cp $OUT/demo.py $DEST/demo.py
 (cd $WT && JAX_PLATFORMS=cpu PYTHONPATH=$WT timeout 600 /venv/bin/python $DEST/demo.py >$DEST/demo_changed.log 2>&1); B=$?
 echo "demo on unchanged tree: exit $A ; with the change: exit $B"
 if [ -n "$TESTS" ]; then
-  (cd /repo && JAX_PLATFORMS=cpu PYTHONPATH=/repo timeout 3000 /venv/bin/python -m pytest -q -p no:cacheprovider -n 8 $TESTS 2>&1 | tail -1 > $DEST/tests_unchanged.log)
-  (cd $WT && JAX_PLATFORMS=cpu PYTHONPATH=$WT timeout 3000 /venv/bin/python -m pytest -q -p no:cacheprovider -n 8 $TESTS 2>&1 | tail -1 > $DEST/tests_changed.log)
+  (cd /repo && JAX_PLATFORMS=cpu PYTHONPATH=/tmp/nompi_stub:/repo timeout 3000 /venv/bin/python -m pytest -q -p no:cacheprovider -n 8 $TESTS 2>&1 | tail -1 > $DEST/tests_unchanged.log)
+  (cd $WT && JAX_PLATFORMS=cpu PYTHONPATH=/tmp/nompi_stub:$WT timeout 3000 /venv/bin/python -m pytest -q -p no:cacheprovider -n 8 $TESTS 2>&1 | tail -1 > $DEST/tests_changed.log)
   echo "tests unchanged: $(cat $DEST/tests_unchanged.log)"; echo "tests changed:   $(cat $DEST/tests_changed.log)"
 fi
 tail -c 300 $DEST/demo_changed.log
